@@ -45,6 +45,10 @@ type WritePlan struct {
 	// A write straddling the limit is short: the bytes that fit are written.
 	ErrNo    string `json:"errno,omitempty"`
 	ErrAfter int    `json:"err_after"`
+	// DelaysUs: simulated microseconds successive writes take (cycled): a slow
+	// or stalled consumer (a pager, a full pipe whose reader sleeps, a network
+	// file system).
+	DelaysUs []int64 `json:"delays_us,omitempty"`
 }
 
 type Stream struct {
@@ -81,6 +85,7 @@ type Step struct {
 	Argv        []string             `json:"argv"`
 	Stdin       *Stream              `json:"stdin,omitempty"`
 	Stdout      *WritePlan           `json:"stdout,omitempty"` // faults of standard output (explicit writers only)
+	Stderr      *WritePlan           `json:"stderr,omitempty"` // standard error as crd names it (the log handler): delays only
 	Files       map[string]*FileSpec `json:"files,omitempty"`
 	Seed        uint64               `json:"seed"`
 	MapPolicy   string               `json:"map_policy,omitempty"`   // sorted|reverse|rotate|shuffle
@@ -153,6 +158,7 @@ type Journal struct {
 	JumpedUs    int64 `json:"jumped_us,omitempty"`
 	SimTimeUs   int64 `json:"sim_time_us"` // simulated time at exit (ticks + jumps), microseconds
 	DelayedReads int  `json:"delayed_reads,omitempty"`
+	DelayedWrites int `json:"delayed_writes,omitempty"`
 	// memory traffic of the whole process at exit (runtime.MemStats): a second
 	// deterministic cost measure besides the logical clock; it also sees work
 	// done inside the standard library and dependencies (copies, re-rendering)
